@@ -14,11 +14,16 @@
 (*  execution_context/scalar_variables*: SetValue, GetValue, Meet*           *)
 (*  farewell_step/outcome.rs: Interp's last step                             *)
 (*                                                                          *)
-(* Stage 1 covers: call (scalar / no output), seq, par, xor, null, never,   *)
-(* fail (literal), match, mismatch, ap (scalar), new (scalar), fold over a  *)
+(* Stage 1: call (scalar / no output), seq, par, xor, null, never, fail     *)
+(* (literal), match, mismatch, ap (scalar), new (scalar), fold over a       *)
 (* scalar with next (and instructions after next), lenses by field/index.   *)
-(* Anything else sets ctx.unsup and the run is reported as                  *)
-(* "model_unsupported" (never a verdict).                                   *)
+(* Stage 2: streams - call and ap into streams, the three generation        *)
+(* matrices, compaction, canon, new-scoped streams, fold over a stream      *)
+(* (fold FSM, lore resolution and convolution, recursive cursor), fold over *)
+(* a canon stream.  (value_types/stream/*, fold_fsm*, fold_merger/*,        *)
+(* ap_merger.rs, canon_merger.rs, canon_utils, streams_variables.rs)        *)
+(* Anything else (stream maps, error objects as operands) sets ctx.unsup    *)
+(* and the run is reported as "model_unsupported" (never a verdict).        *)
 (***************************************************************************)
 EXTENDS Naturals, Integers, Sequences, FiniteSets, TLC, AirValues, AirData
 
@@ -30,6 +35,9 @@ Uncatch(code) == [cls |-> "uncatch", code |-> code]
 Failed(ctx) == ctx.err.cls # "none"
 \* resolution errors: codes from 20000 are uncatchable
 ErrOf(code) == IF code >= 20000 THEN Uncatch(code) ELSE Catch(code)
+
+WithName(f, n, v) == [x \in (DOMAIN f) \cup {n} |-> IF x = n THEN v ELSE f[x]]
+WithoutName(f, n) == [x \in (DOMAIN f) \ {n} |-> f[x]]
 
 E_LocalService == 10000
 E_Match == 10001
@@ -72,6 +80,45 @@ SetPositionAndLen(tr, sl, p, n) ==
     IF n # 0 /\ p + n > Len(tr) THEN [ok |-> FALSE, sl |-> sl]
     ELSE [ok |-> TRUE, sl |-> [pos |-> p, len |-> n, seen |-> 0]]
 
+
+\* ---------------------------------------------------------------------------
+\* fold lore (merger/fold_merger/*.rs): resolution by value position, convolution of lengths per generation
+\* try_get_generation: the generation of the stream value a lore entry points to, or -1
+GenerationAt(tr, vp) ==
+    IF vp < 0 \/ vp >= Len(tr) THEN -1
+    ELSE LET s == tr[vp + 1] IN
+         IF s.k = "exec" /\ s.vt = "stream" THEN s.g
+         ELSE IF s.k = "ap" /\ Len(s.gs) >= 1 THEN s.gs[1]
+         ELSE -1
+RECURSIVE ComputeBefore(_, _, _, _, _)
+\* compute_before_lens over lens[begin..end], walking backwards with k
+ComputeBefore(lens, begin, k, cum, afterLen) ==
+    IF k < begin THEN lens
+    ELSE LET c2 == cum + lens[k].b IN ComputeBefore([lens EXCEPT ![k].b = c2 + afterLen], begin, k - 1, c2, afterLen)
+CloseGen(lens, begin, end) == ComputeBefore(lens, begin, end, 0, lens[end].a)
+RECURSIVE Convolve(_, _, _, _, _, _, _, _)
+Convolve(lore, tr, i, lastGen, lastPos, cumAfter, lens, count) ==
+    IF i > Len(lore) THEN [ok |-> TRUE, lens |-> IF Len(lore) > 0 THEN CloseGen(lens, lastPos, Len(lore)) ELSE lens, count |-> count]
+    ELSE IF Len(lore[i].d) # 2 THEN [ok |-> FALSE, lens |-> lens, count |-> count]
+    ELSE LET g == GenerationAt(tr, lore[i].vp) IN
+         IF g < 0 THEN [ok |-> FALSE, lens |-> lens, count |-> count]
+         ELSE LET changed == lastGen # g
+                  lens1 == IF changed /\ i > 1 THEN CloseGen(lens, lastPos, i - 1) ELSE lens
+                  cum1 == (IF changed THEN 0 ELSE cumAfter) + lore[i].d[2][2]
+              IN Convolve(lore, tr, i + 1, IF changed THEN g ELSE lastGen, IF changed THEN i ELSE lastPos, cum1,
+                          Append(lens1, [b |-> lore[i].d[1][2], a |-> cum1]), count + lore[i].d[1][2] + lore[i].d[2][2])
+\* resolve_fold_lore: [ok, lore (value position -> [b, a] resolved descriptors), count]
+ResolveFoldLore(foldState, tr) ==
+    LET lore == foldState.lore
+        cv == Convolve(lore, tr, 1, 0, 1, 0, <<>>, 0)
+        vps == {lore[i].vp : i \in 1..Len(lore)}
+    IN IF ~cv.ok \/ Cardinality(vps) # Len(lore) THEN [ok |-> FALSE, lore |-> <<>>, count |-> 0]
+       ELSE [ok |-> TRUE,
+             lore |-> [vp \in vps |-> LET i == CHOOSE j \in 1..Len(lore) : lore[j].vp = vp IN
+                                      [b |-> <<lore[i].d[1][1], cv.lens[i].b>>, a |-> <<lore[i].d[2][1], cv.lens[i].a>>]],
+             count |-> cv.count]
+NoFold == [ok |-> TRUE, lore |-> <<>>, count |-> 0]
+
 \* ---------------------------------------------------------------------------
 \* content id of a result in the model: equal contents <=> equal ids (C25 is the code-side counterpart)
 Cid(kind, v, p, s, f, ah) == ToString(<<kind, v, p, s, f, ah>>)
@@ -85,6 +132,13 @@ UnusedState(v) ==
 FailedState(v, p, s, f, args) ==
     [k |-> "failed", c |-> Cid("sr", v, p, s, f, Arr(args)), v |-> v, p |-> p, s |-> s, f |-> f,
      lens |-> "", ah |-> Arr(args)]
+StreamExecState(v, p, s, f, args) == [ExecState("stream", v, p, s, f, args) EXCEPT !.g = StubGeneration]
+ApState == [k |-> "ap", gs |-> <<StubGeneration>>]
+CanonSentState(by) == [k |-> "csent", by |-> by]
+CanonElem(val) == [v |-> val.v, p |-> val.tp.p, s |-> val.tp.s, f |-> val.tp.f, lens |-> val.tp.lens, prov |-> val.prov, provc |-> ""]
+CanonExecState(peer, vals) ==
+    LET elems == [i \in 1..Len(vals) |-> CanonElem(vals[i])] IN
+    [k |-> "cexec", c |-> ToString(<<"canon", peer, elems>>), p |-> peer, s |-> "", f |-> "", lens |-> "", vals |-> elems]
 SentState(by, id) == [k |-> "sent", by |-> by, id |-> id]
 ParState(l, r) == [k |-> "par", lsz |-> l, rsz |-> r]
 
@@ -103,28 +157,90 @@ MergeCallResults(p, c) ==
       [] IsSent(p) /\ c.k = "exec"   -> [ok |-> TRUE, st |-> c, src |-> "cur"]
       [] p.k = "exec" /\ IsSent(c)   -> [ok |-> TRUE, st |-> p, src |-> "prev"]
       [] p.k = "exec" /\ c.k = "exec" ->
-            IF SameResult(p, c) THEN [ok |-> TRUE, st |-> p, src |-> "prev"] ELSE [ok |-> FALSE, st |-> p, src |-> "prev"]
+            IF SameResult(p, c) THEN [ok |-> TRUE, st |-> p, src |-> "both"] ELSE [ok |-> FALSE, st |-> p, src |-> "prev"]
       [] OTHER -> [ok |-> FALSE, st |-> p, src |-> "prev"]
 
-\* try_merge_next_state_as_call: advances both sliders; [ctx, met, ok, st, src]
+\* prepare_positions_mapping: result position -> position in prev / current trace (feeds the fold lore lookup)
+MapPositions(ctx, scheme) ==
+    LET np == Len(ctx.out) IN
+    [ctx EXCEPT !.n2p = IF scheme \in {"prev", "both"} THEN WithName(@, np, ctx.ps.pos - 1) ELSE @,
+                !.n2c = IF scheme \in {"cur", "both"} THEN WithName(@, np, ctx.cs.pos - 1) ELSE @]
+
+\* try_merge_next_state_as_call: advances both sliders; [ctx, met, ok, st, src]; src: where the state came from
+\* ("both" counts as previous data for generations)
 TryMergeNextStateAsCall(ctx) ==
     LET pn == NextState(ctx.pt, ctx.ps)
         cn == NextState(ctx.ct, ctx.cs)
         c2 == [ctx EXCEPT !.ps = pn.sl, !.cs = cn.sl]
     IN  IF pn.has /\ cn.has THEN
             IF IsCallState(pn.st) /\ IsCallState(cn.st)
-            THEN LET m == MergeCallResults(pn.st, cn.st) IN [ctx |-> c2, met |-> TRUE, ok |-> m.ok, st |-> m.st, src |-> m.src]
+            THEN LET m == MergeCallResults(pn.st, cn.st) IN
+                 [ctx |-> IF m.ok THEN MapPositions(c2, m.src) ELSE c2, met |-> TRUE, ok |-> m.ok, st |-> m.st, src |-> m.src]
             ELSE [ctx |-> c2, met |-> TRUE, ok |-> FALSE, st |-> pn.st, src |-> "prev"]
         ELSE IF cn.has THEN
-            [ctx |-> c2, met |-> TRUE, ok |-> IsCallState(cn.st), st |-> cn.st, src |-> "cur"]
+            [ctx |-> MapPositions(c2, "cur"), met |-> TRUE, ok |-> IsCallState(cn.st), st |-> cn.st, src |-> "cur"]
         ELSE IF pn.has THEN
-            [ctx |-> c2, met |-> TRUE, ok |-> IsCallState(pn.st), st |-> pn.st, src |-> "prev"]
+            [ctx |-> MapPositions(c2, "prev"), met |-> TRUE, ok |-> IsCallState(pn.st), st |-> pn.st, src |-> "prev"]
         ELSE [ctx |-> c2, met |-> FALSE, ok |-> TRUE, st |-> [k |-> "none"], src |-> "prev"]
+
+\* try_merge_next_state_as_ap: [ctx, met, ok, gen]
+TryMergeNextStateAsAp(ctx) ==
+    LET pn == NextState(ctx.pt, ctx.ps)
+        cn == NextState(ctx.ct, ctx.cs)
+        c2 == [ctx EXCEPT !.ps = pn.sl, !.cs = cn.sl]
+        okAp(s) == s.k = "ap"
+        one(s) == Len(s.gs) = 1
+    IN  IF pn.has /\ cn.has THEN
+            IF okAp(pn.st) /\ okAp(cn.st) /\ one(pn.st)
+            THEN [ctx |-> MapPositions(c2, "both"), met |-> TRUE, ok |-> TRUE, gen |-> [k |-> "prev", i |-> pn.st.gs[1]]]
+            ELSE [ctx |-> c2, met |-> TRUE, ok |-> FALSE, gen |-> [k |-> "new", i |-> 0]]
+        ELSE IF pn.has THEN
+            IF okAp(pn.st) /\ one(pn.st)
+            THEN [ctx |-> MapPositions(c2, "prev"), met |-> TRUE, ok |-> TRUE, gen |-> [k |-> "prev", i |-> pn.st.gs[1]]]
+            ELSE [ctx |-> c2, met |-> TRUE, ok |-> FALSE, gen |-> [k |-> "new", i |-> 0]]
+        ELSE IF cn.has THEN
+            IF okAp(cn.st) /\ one(cn.st)
+            THEN [ctx |-> MapPositions(c2, "cur"), met |-> TRUE, ok |-> TRUE, gen |-> [k |-> "cur", i |-> cn.st.gs[1]]]
+            ELSE [ctx |-> c2, met |-> TRUE, ok |-> FALSE, gen |-> [k |-> "new", i |-> 0]]
+        ELSE [ctx |-> c2, met |-> FALSE, ok |-> TRUE, gen |-> [k |-> "new", i |-> 0]]
+
+\* try_merge_next_state_as_canon (canon_merger.rs): [ctx, met, ok, st]
+IsCanonState(s) == s.k \in {"csent", "cexec"}
+TryMergeNextStateAsCanon(ctx) ==
+    LET pn == NextState(ctx.pt, ctx.ps)
+        cn == NextState(ctx.ct, ctx.cs)
+        c2 == [ctx EXCEPT !.ps = pn.sl, !.cs = cn.sl]
+    IN  IF pn.has /\ cn.has THEN
+            IF ~IsCanonState(pn.st) \/ ~IsCanonState(cn.st) THEN [ctx |-> c2, met |-> TRUE, ok |-> FALSE, st |-> pn.st]
+            ELSE IF pn.st.k = "cexec" /\ cn.st.k = "cexec" /\ pn.st.c # cn.st.c THEN [ctx |-> c2, met |-> TRUE, ok |-> FALSE, st |-> pn.st]
+            ELSE IF pn.st.k = "csent" /\ cn.st.k = "cexec" THEN [ctx |-> c2, met |-> TRUE, ok |-> TRUE, st |-> cn.st]
+            ELSE [ctx |-> c2, met |-> TRUE, ok |-> TRUE, st |-> pn.st]
+        ELSE IF pn.has THEN [ctx |-> c2, met |-> TRUE, ok |-> IsCanonState(pn.st), st |-> pn.st]
+        ELSE IF cn.has THEN [ctx |-> c2, met |-> TRUE, ok |-> IsCanonState(cn.st), st |-> cn.st]
+        ELSE [ctx |-> c2, met |-> FALSE, ok |-> TRUE, st |-> [k |-> "none"]]
+
+\* try_merge_next_state_as_fold: [ctx, ok, pf, cf] with the resolved lores
+TryMergeNextStateAsFold(ctx) ==
+    LET pn == NextState(ctx.pt, ctx.ps)
+        cn == NextState(ctx.ct, ctx.cs)
+        c2 == [ctx EXCEPT !.ps = pn.sl, !.cs = cn.sl]
+        kindsOk == (~pn.has \/ pn.st.k = "fold") /\ (~cn.has \/ cn.st.k = "fold")
+        pf == IF pn.has /\ pn.st.k = "fold" THEN ResolveFoldLore(pn.st, ctx.pt) ELSE NoFold
+        cf == IF cn.has /\ cn.st.k = "fold" THEN ResolveFoldLore(cn.st, ctx.ct) ELSE NoFold
+    IN [ctx |-> c2, ok |-> kindsOk /\ pf.ok /\ cf.ok, pf |-> pf, cf |-> cf]
 
 \* ---------------------------------------------------------------------------
 \* scalars (values_sparse_matrix.rs).  sc: name -> sequence of cells [depth, set, val];
 \* val = [v (value), tp (tetraplet [p, s, f, lens])]
-NoVal == [v |-> Null, tp |-> [p |-> "", s |-> "", f |-> "", lens |-> ""]]
+NoTp == [p |-> "", s |-> "", f |-> "", lens |-> ""]
+\* a value: v (JSON), tp (tetraplet), elems (the elements of a canon stream, else <<>>), pos (trace position
+\* of the state that holds it, for stream values), prov (provenance kind)
+Val(v, tp) == [v |-> v, tp |-> tp, elems |-> <<>>, cn |-> FALSE, pos |-> -1, prov |-> "literal"]
+ValAt(v, tp, pos, prov) == [v |-> v, tp |-> tp, elems |-> <<>>, cn |-> FALSE, pos |-> pos, prov |-> prov]
+CanonVal(peer, elems) ==
+    [v |-> Arr([i \in 1..Len(elems) |-> elems[i].v]), tp |-> [p |-> peer, s |-> "", f |-> "", lens |-> ""],
+     elems |-> elems, cn |-> TRUE, pos |-> -1, prov |-> "canon"]
+NoVal == Val(Null, NoTp)
 Cell(d, set, val) == [depth |-> d, set |-> set, val |-> val]
 HasName(ctx, n) == n \in DOMAIN ctx.sc
 LastCell(ctx, n) == ctx.sc[n][Len(ctx.sc[n])]
@@ -141,8 +257,6 @@ MatrixGet(ctx, n) ==
          ELSE IF ~c.set THEN [r |-> "uninit", val |-> NoVal]
          ELSE [r |-> "ok", val |-> c.val]
 
-WithName(f, n, v) == [x \in (DOMAIN f) \cup {n} |-> IF x = n THEN v ELSE f[x]]
-WithoutName(f, n) == [x \in (DOMAIN f) \ {n} |-> f[x]]
 
 \* set_value: ctx with err on ShadowingIsNotAllowed
 SetValue(ctx, n, val) ==
@@ -179,11 +293,93 @@ MeetNewEnd(ctx, n) ==
          ELSE IF cells[1].depth = ctx.depth THEN [ctx EXCEPT !.sc = WithoutName(@, n)]
          ELSE [ctx EXCEPT !.err = Uncatch(U_ScalarsCorrupted)]
 
+
+\* ---------------------------------------------------------------------------
+\* streams (value_types/stream/*.rs, execution_context/streams_variables.rs)
+\* A stream: three generation matrices prev / cur / new, each a sequence of generations (sequences of values).
+\* sm: name -> stack of descriptors [scope, st]; scope = [op |-> "global"] or the `new` node that opened it.
+EmptyStream == [prev |-> <<>>, cur |-> <<>>, new |-> <<>>]
+GlobalScope == [op |-> "global"]
+STREAM_MAX_SIZE == 1024
+
+MatSize(m) == LET RECURSIVE S(_) S(i) == IF i > Len(m) THEN 0 ELSE Len(m[i]) + S(i + 1) IN S(1)
+StreamSize(st) == MatSize(st.prev) + MatSize(st.cur) + MatSize(st.new)
+Flatten(m) == LET RECURSIVE F(_) F(i) == IF i > Len(m) THEN <<>> ELSE m[i] \o F(i + 1) IN F(1)
+\* Stream::iter: previous, current, new
+StreamIter(st) == Flatten(st.prev) \o Flatten(st.cur) \o Flatten(st.new)
+NonEmptyGens(m) == SelectSeq(m, LAMBDA g : Len(g) > 0)
+\* ValuesMatrix::slice_iter(skip): non-empty generations, the first `skip` of them dropped
+SliceFrom(m, skip) == LET ne == NonEmptyGens(m) IN IF skip >= Len(ne) THEN <<>> ELSE SubSeq(ne, skip + 1, Len(ne))
+StreamSlices(st, cur) == SliceFrom(st.prev, cur.p) \o SliceFrom(st.cur, cur.c) \o SliceFrom(st.new, cur.n)
+StreamCursor(st) == [p |-> Len(st.prev), c |-> Len(st.cur), n |-> Len(st.new)]
+
+\* add_value_to_generation(value, idx) with 0-based idx (resize with empty generations)
+AddToGen(m, val, idx) ==
+    LET m2 == IF idx >= Len(m) THEN m \o [i \in 1..(idx + 1 - Len(m)) |-> <<>>] ELSE m IN
+    [m2 EXCEPT ![idx + 1] = Append(@, val)]
+\* add_to_last_generation: generation Len-1 (generation 0 when there is none)
+AddToLastNew(m, val) == AddToGen(m, val, IF Len(m) = 0 THEN 0 ELSE Len(m) - 1)
+
+\* gen: [k |-> "prev" | "cur" | "new", i]
+StreamAdd(st, val, gen) ==
+    CASE gen.k = "prev" -> [st EXCEPT !.prev = AddToGen(@, val, gen.i)]
+      [] gen.k = "cur"  -> [st EXCEPT !.cur = AddToGen(@, val, gen.i)]
+      [] OTHER          -> [st EXCEPT !.new = AddToLastNew(@, val)]
+
+\* find_closest: the last descriptor whose span contains the position of the use (lexical: the `new` node is in lex)
+Visible(ctx, d) == d.scope = GlobalScope \/ d.scope \in ctx.lex
+FindDesc(ctx, name) ==
+    IF name \notin DOMAIN ctx.sm THEN 0
+    ELSE LET ds == ctx.sm[name]
+             hits == {i \in 1..Len(ds) : Visible(ctx, ds[i])}
+         IN IF hits = {} THEN 0 ELSE CHOOSE i \in hits : \A j \in hits : j <= i
+GetStream(ctx, name) ==
+    LET i == FindDesc(ctx, name) IN IF i = 0 THEN [found |-> FALSE, st |-> EmptyStream] ELSE [found |-> TRUE, st |-> ctx.sm[name][i].st]
+SetStream(ctx, name, st) ==
+    LET i == FindDesc(ctx, name) IN [ctx EXCEPT !.sm[name][i].st = st]
+
+\* Streams::add_stream_value (+ the generation bound and the size limit of Stream::add_value)
+AddStreamValue(ctx, name, val, gen) ==
+    IF gen.k # "new" /\ gen.i >= STREAM_MAX_SIZE THEN [ctx EXCEPT !.err = Uncatch(20013)]
+    ELSE
+    LET i == FindDesc(ctx, name)
+        st0 == IF i = 0 THEN EmptyStream ELSE ctx.sm[name][i].st
+        st1 == StreamAdd(st0, val, gen)
+        c1 == IF i = 0 THEN [ctx EXCEPT !.sm = WithName(@, name, <<[scope |-> GlobalScope, st |-> st1]>>)]
+              ELSE [ctx EXCEPT !.sm[name][i].st = st1]
+    IN IF StreamSize(st1) >= STREAM_MAX_SIZE THEN [c1 EXCEPT !.err = Uncatch(20013)] ELSE c1
+
+\* compactify: drop empty generations, number previous, then current, then new, write the numbers into the result trace
+SetGeneration(out, pos, g) ==
+    IF pos < 0 \/ pos >= Len(out) THEN [ok |-> FALSE, out |-> out]
+    ELSE LET s == out[pos + 1] IN
+         IF s.k = "ap" THEN [ok |-> TRUE, out |-> [out EXCEPT ![pos + 1] = [k |-> "ap", gs |-> <<g>>]]]
+         ELSE IF s.k = "exec" /\ s.vt = "stream" THEN [ok |-> TRUE, out |-> [out EXCEPT ![pos + 1] = [s EXCEPT !.g = g]]]
+         ELSE [ok |-> FALSE, out |-> out]
+RECURSIVE NumberValues(_, _, _, _)
+NumberValues(r, vals, j, g) ==
+    IF j > Len(vals) \/ ~r.ok THEN r ELSE NumberValues(SetGeneration(r.out, vals[j].pos, g), vals, j + 1, g)
+RECURSIVE NumberGens(_, _, _, _)
+NumberGens(r, gens, i, start) ==
+    IF i > Len(gens) \/ ~r.ok THEN r ELSE NumberGens(NumberValues(r, gens[i], 1, start + i - 1), gens, i + 1, start)
+CompactStream(ctx, st) ==
+    LET pv == NonEmptyGens(st.prev)  cu == NonEmptyGens(st.cur)  nw == NonEmptyGens(st.new)
+        r1 == NumberGens([ok |-> TRUE, out |-> ctx.out], pv, 1, 0)
+        r2 == NumberGens(r1, cu, 1, Len(pv))
+        r3 == NumberGens(r2, nw, 1, Len(pv) + Len(cu))
+    IN IF r3.ok THEN [ctx EXCEPT !.out = r3.out] ELSE [ctx EXCEPT !.err = Uncatch(20001)]
+\* Streams::compactify at farewell: every descriptor of every stream
+RECURSIVE CompactAll(_, _)
+CompactAll(ctx, todo) ==
+    IF todo = {} \/ Failed(ctx) THEN ctx
+    ELSE LET x == CHOOSE y \in todo : TRUE IN CompactAll(CompactStream(ctx, ctx.sm[x[1]][x[2]].st), todo \ {x})
+AllDescriptors(ctx) == UNION {{<<n, i>> : i \in 1..Len(ctx.sm[n])} : n \in DOMAIN ctx.sm}
+
 \* ---------------------------------------------------------------------------
 \* resolution of operands (resolver/resolvable_impl.rs, lambda_applier).
 \* Result: [r, val] with r in "ok" | "join" (VariableNotFound: joinable) | "err" (code)
 LitTetraplet(ctx) == [p |-> ctx.init, s |-> "", f |-> "", lens |-> ""]
-Const(ctx, v) == [r |-> "ok", code |-> 0, val |-> [v |-> v, tp |-> LitTetraplet(ctx)]]
+Const(ctx, v) == [r |-> "ok", code |-> 0, val |-> Val(v, LitTetraplet(ctx))]
 RJoin == [r |-> "join", code |-> E_VariableNotFound, val |-> NoVal]
 RErr(code) == [r |-> "err", code |-> code, val |-> NoVal]
 
@@ -215,11 +411,11 @@ PlainLens(lens) == \A i \in 1..Len(lens) : lens[i].lk \in {"field", "idx"}
 ApplyLens(ctx, val, lens) ==
     IF Len(lens) = 1 /\ lens[1].lk = "len" THEN
         (IF IsArr(val.v) THEN [r |-> "ok", code |-> 0,
-                               val |-> [v |-> Num(Len(val.v.q)), tp |-> [p |-> "", s |-> "", f |-> "", lens |-> ".length"]]]
+                               val |-> Val(Num(Len(val.v.q)), [p |-> "", s |-> "", f |-> "", lens |-> ".length"])]
          ELSE RErr(E_LengthOfNonArray))
     ELSE IF ~PlainLens(lens) THEN RErr(-2)     \* by-scalar accessors: not in stage 1
     ELSE LET nv == Nav(val.v, lens) IN
-         IF nv.ok THEN [r |-> "ok", code |-> 0, val |-> [v |-> nv.v, tp |-> [val.tp EXCEPT !.lens = @ \o LensText(lens)]]]
+         IF nv.ok THEN [r |-> "ok", code |-> 0, val |-> [Val(nv.v, [val.tp EXCEPT !.lens = @ \o LensText(lens)]) EXCEPT !.prov = val.prov]]
          ELSE RErr(E_Lambda)
 
 Resolve(ctx, o) ==
@@ -234,7 +430,11 @@ Resolve(ctx, o) ==
             ELSE ApplyLens(ctx, g.val, o.lens)
       [] OTHER -> RErr(-2)
 
-Supported(o) == o.o \in {"lit", "peer", "init", "empty"} \/ (o.o = "var" /\ \A i \in 1..Len(o.lens) : o.lens[i].lk \in {"field", "idx", "len"})
+Sigil(n) == SubSeq(n, 1, 1)
+Supported(o) ==
+    \/ o.o \in {"lit", "peer", "init", "empty"}
+    \/ (o.o = "var" /\ Sigil(o.n) \notin {"#", "$", "%"} /\ \A i \in 1..Len(o.lens) : o.lens[i].lk \in {"field", "idx", "len"})
+    \/ (o.o = "var" /\ Sigil(o.n) = "#" /\ SubSeq(o.n, 1, 2) # "#%" /\ Len(o.lens) = 0)
 
 \* resolve a sequence of operands left to right; first non-ok decides
 RECURSIVE ResolveAll(_, _, _, _)
@@ -250,6 +450,7 @@ InitCtx(me, init, pt, ct, lcid, results) ==
     [ me |-> me, init |-> init, pt |-> pt, ct |-> ct, ps |-> Slider(pt), cs |-> Slider(ct),
       out |-> <<>>, sc |-> <<>>, depth |-> 0, allowed |-> {0}, it |-> <<>>,
       ok |-> TRUE, nx |-> {}, rq |-> <<>>, lcid |-> lcid, res |-> results,
+      sm |-> <<>>, lex |-> {}, n2p |-> <<>>, n2c |-> <<>>, ff |-> <<>>, fid |-> 0,
       err |-> NoErr, unsup |-> FALSE, kf1 |-> FALSE ]
 
 Push(ctx, st) == [ctx EXCEPT !.out = Append(@, st)]
@@ -261,12 +462,17 @@ ResultFor(ctx, id) == {r \in ctx.res : r.id = id}
 \* ---------------------------------------------------------------------------
 \* call (instructions/call/*.rs)
 Vals(q) == [i \in 1..Len(q) |-> q[i].v]
-Tets(q) == [i \in 1..Len(q) |-> <<q[i].tp>>]
+Tets(q) == [i \in 1..Len(q) |-> IF q[i].cn THEN [j \in 1..Len(q[i].elems) |-> q[i].elems[j].tp] ELSE <<q[i].tp>>]
 
 \* populate_context_from_data: stored executed value must fit the instruction's output kind
-BindStored(ctx, st, out, p, s, f) ==
+BindStored(ctx, st, out, p, s, f, src) ==
     IF out = "" THEN (IF st.vt = "unused" THEN ctx ELSE Raise(ctx, Uncatch(U_ResultNotCorrespond)))
-    ELSE IF st.vt = "scalar" THEN SetValue(ctx, out, [v |-> st.v, tp |-> [p |-> p, s |-> s, f |-> f, lens |-> ""]])
+    ELSE IF Sigil(out) = "$" THEN
+        (IF st.vt = "stream"
+         THEN AddStreamValue(ctx, out, ValAt(st.v, [p |-> p, s |-> s, f |-> f, lens |-> ""], Len(ctx.out), "sr"),
+                             [k |-> IF src = "cur" THEN "cur" ELSE "prev", i |-> st.g])
+         ELSE Raise(ctx, Uncatch(U_ResultNotCorrespond)))
+    ELSE IF st.vt = "scalar" THEN SetValue(ctx, out, ValAt(st.v, [p |-> p, s |-> s, f |-> f, lens |-> ""], -1, "sr"))
     ELSE Raise(ctx, Uncatch(U_ResultNotCorrespond))
 
 \* verifier.rs verify_call: stored tetraplet and argument hash must match the instruction's
@@ -281,7 +487,10 @@ ApplyServiceResult(ctx, r, out, p, s, f, args) ==
         \* which the model does not reproduce: content left opaque
         Raise(Push(ctx, FailedState(Unknown, p, s, f, args)), Catch(E_LocalService))
     ELSE IF out = "" THEN Push(ctx, UnusedState(r.v))
-    ELSE LET c2 == SetValue(ctx, out, [v |-> r.v, tp |-> [p |-> p, s |-> s, f |-> f, lens |-> ""]]) IN
+    ELSE IF Sigil(out) = "$" THEN
+        LET c2 == AddStreamValue(ctx, out, ValAt(r.v, [p |-> p, s |-> s, f |-> f, lens |-> ""], Len(ctx.out), "sr"), [k |-> "new", i |-> 0]) IN
+        IF Failed(c2) THEN c2 ELSE Push(c2, StreamExecState(r.v, p, s, f, args))
+    ELSE LET c2 == SetValue(ctx, out, ValAt(r.v, [p |-> p, s |-> s, f |-> f, lens |-> ""], -1, "sr")) IN
          IF Failed(c2) THEN c2 ELSE Push(c2, ExecState("scalar", r.v, p, s, f, args))
 
 ExecCall(i, ctx0) ==
@@ -299,7 +508,7 @@ ExecCall(i, ctx0) ==
     ELSE IF ~IsStr(fr.val.v) THEN Raise(ctx0, Catch(E_NonStringTriplet))
     ELSE
     LET p == pr.val.v.s  s == sr.val.v.s  f == fr.val.v.s  out == i.out
-        outChk == IF out = "" THEN "ok"
+        outChk == IF out = "" \/ Sigil(out) = "$" THEN "ok"
                   ELSE IF out \in DOMAIN ctx0.it THEN "iter"
                   ELSE IF MatrixGet(ctx0, out).r = "ok" /\ ~VariableCouldBeSet(ctx0, out) THEN "shadow"
                   ELSE "ok"
@@ -354,9 +563,11 @@ ExecCall(i, ctx0) ==
       [] st.k = "exec" ->
             IF ~argsKnown THEN Raise(ctx, Uncatch(-1))
             ELSE IF st.vt # "unused" /\ ~ParamsMatch(st, p, s, f, args) THEN
-                (IF (out = "") = (st.vt = "unused") /\ (st.vt = "scalar" \/ out = "") THEN Raise(ctx, Uncatch(U_ParamsMismatch))
+                (IF (out = "" /\ st.vt = "unused") \/ (out # "" /\ Sigil(out) = "$" /\ st.vt = "stream")
+                    \/ (out # "" /\ Sigil(out) # "$" /\ st.vt = "scalar")
+                 THEN Raise(ctx, Uncatch(U_ParamsMismatch))
                  ELSE Raise(ctx, Uncatch(U_ResultNotCorrespond)))
-            ELSE LET c2 == BindStored(ctx, st, out, p, s, f) IN
+            ELSE LET c2 == BindStored(ctx, st, out, p, s, f, m.src) IN
                  IF Failed(c2) THEN c2 ELSE Push(c2, st)
       [] OTHER -> Raise(ctx, Uncatch(U_Trace))
 
@@ -449,9 +660,140 @@ ExecAp(i, ctx) ==
     LET a == Resolve(ctx, i.src) IN
     IF a.r = "join" THEN Incomplete(ctx)
     ELSE IF a.r = "err" THEN Raise(ctx, ErrOf(a.code))
-    ELSE SetValue(ctx, i.dst, a.val)
+    ELSE IF Sigil(i.dst) # "$" THEN SetValue(ctx, i.dst, a.val)
+    ELSE
+    \* the value takes the position of the Ap state about to be written
+    LET val == [a.val EXCEPT !.pos = Len(ctx.out)]
+        m == TryMergeNextStateAsAp(ctx) IN
+    IF ~m.ok THEN Raise(m.ctx, Uncatch(U_Trace))
+    ELSE LET c2 == AddStreamValue(m.ctx, i.dst, val, m.gen) IN
+         IF Failed(c2) THEN c2 ELSE Push(c2, ApState)
+
+\* canon (instructions/canon.rs, canon_utils/mod.rs)
+CanonCreate(i, ctx, peer) ==
+    LET g == GetStream(ctx, i.s)
+        vals == IF g.found THEN StreamIter(g.st) ELSE <<>>
+        st == CanonExecState(peer, vals)
+        c2 == SetValue(ctx, i.c, CanonVal(peer, vals))
+    IN IF Failed(c2) THEN c2 ELSE Push(c2, st)
+ElemVal(e) == [v |-> e.v, tp |-> [p |-> e.p, s |-> e.s, f |-> e.f, lens |-> e.lens], elems |-> <<>>, cn |-> FALSE, pos |-> -1, prov |-> e.prov]
+ExecCanon(i, ctx0) ==
+    LET m == TryMergeNextStateAsCanon(ctx0)
+        ctx == m.ctx
+        pr == Resolve(ctx, i.peer) IN
+    IF ~m.ok THEN Raise(ctx, Uncatch(U_Trace))
+    ELSE IF m.met THEN
+        (IF pr.r = "join" THEN Raise(ctx, Catch(E_VariableNotFound))
+         ELSE IF pr.r = "err" THEN Raise(ctx, ErrOf(pr.code))
+         ELSE IF ~IsStr(pr.val.v) THEN Raise(ctx, Catch(E_NonStringTriplet))
+         ELSE LET peer == pr.val.v.s IN
+              IF m.st.k = "csent" THEN
+                  (IF peer # ctx.me THEN Incomplete(Push(ctx, m.st)) ELSE CanonCreate(i, ctx, peer))
+              ELSE IF m.st.p # peer \/ m.st.s # "" \/ m.st.f # "" \/ m.st.lens # "" THEN Raise(ctx, Uncatch(U_ParamsMismatch))
+              ELSE LET elems == [j \in 1..Len(m.st.vals) |-> ElemVal(m.st.vals[j])]
+                       c2 == SetValue(ctx, i.c, CanonVal(m.st.p, elems)) IN
+                   IF Failed(c2) THEN c2 ELSE Push(c2, m.st))
+    ELSE
+        (IF pr.r = "join" THEN Incomplete(ctx)
+         ELSE IF pr.r = "err" THEN Raise(ctx, ErrOf(pr.code))
+         ELSE IF ~IsStr(pr.val.v) THEN Raise(ctx, Catch(E_NonStringTriplet))
+         ELSE LET peer == pr.val.v.s IN
+              IF peer # ctx.me THEN Incomplete(Push([ctx EXCEPT !.nx = @ \cup {peer}], CanonSentState(ctx.me)))
+              ELSE CanonCreate(i, ctx, peer))
+
+\* fold FSM of the trace handler (state_automata/fold_fsm*.rs)
+NoLore == [has |-> FALSE, b |-> <<0, 0>>, a |-> <<0, 0>>]
+TakeLore(lore, pos) == IF pos \in DOMAIN lore THEN [has |-> TRUE, b |-> lore[pos].b, a |-> lore[pos].a] ELSE NoLore
+ApplyLore(tr, sl, l, which) ==
+    IF l.has THEN (IF which = "b" THEN SetPositionAndLen(tr, sl, l.b[1], l.b[2]) ELSE SetPositionAndLen(tr, sl, l.a[1], l.a[2]))
+    ELSE SetSubtraceLen(tr, sl, 0)
+ApplyLores(ctx, pl, cl, which) ==
+    LET p1 == ApplyLore(ctx.pt, ctx.ps, pl, which)
+        c1 == ApplyLore(ctx.ct, ctx.cs, cl, which) IN
+    IF p1.ok /\ c1.ok THEN [ctx EXCEPT !.ps = p1.sl, !.cs = c1.sl] ELSE Raise([ctx EXCEPT !.ps = p1.sl], Uncatch(U_Trace))
+CtorNext(st) == IF st >= 3 THEN 3 ELSE st + 1
+CtorFinish(c, n) ==
+    CASE c.st = 0 -> [c EXCEPT !.be = n, !.as = n, !.ae = n, !.st = 3]
+      [] c.st = 1 -> [c EXCEPT !.as = n, !.ae = n, !.st = 3]
+      [] c.st = 2 -> [c EXCEPT !.ae = n, !.st = 3]
+      [] OTHER -> c
+CtorLore(c) == [vp |-> c.vp, d |-> <<<<c.bs, c.be - c.bs>>, <<c.as, c.ae - c.as>>>>]
+
+FoldFsmStart(ctx0) ==
+    LET m == TryMergeNextStateAsFold(ctx0)
+        ctx == m.ctx
+        plen == Remaining(ctx.ps) - m.pf.count
+        clen == Remaining(ctx.cs) - m.cf.count
+        fid == ctx.fid + 1
+        fsm == [pl |-> m.pf.lore, cl |-> m.cf.lore, ins |-> Len(ctx.out) + 1, q |-> <<>>, bt |-> 0, started |-> FALSE, res |-> <<>>,
+                pfin |-> [pos |-> ctx.ps.pos + m.pf.count, len |-> plen], cfin |-> [pos |-> ctx.cs.pos + m.cf.count, len |-> clen]]
+    IN IF ~m.ok \/ plen < 0 \/ clen < 0 THEN Raise(ctx, Uncatch(U_Trace))
+       ELSE Push([ctx EXCEPT !.fid = fid, !.ff = WithName(@, fid, fsm)], ParState(0, 0))
+
+FsmIterationStart(ctx, fid, vp) ==
+    LET fsm == ctx.ff[fid]
+        pp == IF vp \in DOMAIN ctx.n2p THEN ctx.n2p[vp] ELSE -1
+        cp == IF vp \in DOMAIN ctx.n2c THEN ctx.n2c[vp] ELSE -1
+        pl == TakeLore(fsm.pl, pp)
+        cl == TakeLore(fsm.cl, cp)
+        c1 == ApplyLores(ctx, pl, cl, "b")
+        ctor == [vp |-> vp, bs |-> Len(ctx.out), be |-> 0, as |-> 0, ae |-> 0, st |-> 0]
+    IN IF Failed(c1) THEN c1
+       ELSE [c1 EXCEPT !.ff[fid] = [fsm EXCEPT !.pl = [x \in (DOMAIN fsm.pl) \ {pp} |-> fsm.pl[x]],
+                                               !.cl = [x \in (DOMAIN fsm.cl) \ {cp} |-> fsm.cl[x]],
+                                               !.q = Append(@, [ctor |-> ctor, pl |-> pl, cl |-> cl]),
+                                               !.bt = @ + 1]]
+
+FsmIterationEnd(ctx, fid) ==
+    LET fsm == ctx.ff[fid] IN
+    [ctx EXCEPT !.ff[fid].q[fsm.bt].ctor = [@ EXCEPT !.be = Len(ctx.out), !.st = CtorNext(@)]]
+
+FsmBackIterator(ctx, fid) ==
+    LET fsm == ctx.ff[fid]  n == Len(ctx.out) IN
+    IF ~fsm.started THEN
+        LET cur == fsm.q[fsm.bt]
+            c1 == IF cur.ctor.st = 0 THEN [cur.ctor EXCEPT !.be = n, !.st = 1] ELSE cur.ctor
+            c2 == [c1 EXCEPT !.as = n, !.st = CtorNext(@)]
+            x == ApplyLores(ctx, cur.pl, cur.cl, "a")
+        IN IF Failed(x) THEN x ELSE [x EXCEPT !.ff[fid].q[fsm.bt].ctor = c2, !.ff[fid].started = TRUE]
+    ELSE
+        LET cur == fsm.q[fsm.bt]
+            c1 == [cur.ctor EXCEPT !.ae = n, !.st = CtorNext(@)]
+            bt2 == fsm.bt - 1 IN
+        IF bt2 < 1 THEN Raise(ctx, Uncatch(-1))      \* queue[0 - 1]: index underflow panic in the code
+        ELSE LET nx == fsm.q[bt2]
+                 c2 == [nx.ctor EXCEPT !.as = n, !.st = CtorNext(@)]
+                 x == ApplyLores(ctx, nx.pl, nx.cl, "a")
+             IN IF Failed(x) THEN x
+                ELSE [x EXCEPT !.ff[fid].q[fsm.bt].ctor = c1, !.ff[fid].q[bt2].ctor = c2, !.ff[fid].bt = bt2]
+
+FsmGenerationEnd(ctx, fid) ==
+    LET fsm == ctx.ff[fid]  n == Len(ctx.out)
+        lores == [j \in 1..Len(fsm.q) |-> CtorLore(CtorFinish(fsm.q[j].ctor, n))] IN
+    [ctx EXCEPT !.ff[fid] = [fsm EXCEPT !.q = <<>>, !.bt = 0, !.started = FALSE, !.res = @ \o lores]]
+
+FsmFoldEnd(ctx, fid) ==
+    LET fsm == ctx.ff[fid]
+        p1 == SetPositionAndLen(ctx.pt, ctx.ps, fsm.pfin.pos, fsm.pfin.len).sl
+        c1 == SetPositionAndLen(ctx.ct, ctx.cs, fsm.cfin.pos, fsm.cfin.len).sl IN
+    [ctx EXCEPT !.out = [@ EXCEPT ![fsm.ins] = [k |-> "fold", lore |-> fsm.res]], !.ps = p1, !.cs = c1,
+                !.ff = WithoutName(@, fid)]
 
 ExecNew(i, ctx) ==
+    IF Sigil(i.n) = "$" THEN
+        \* Streams::meet_scope_start / meet_scope_end: a fresh stream for the span of this `new`, compacted at its end
+        LET ds0 == IF i.n \in DOMAIN ctx.sm THEN ctx.sm[i.n] ELSE <<>>
+            c0 == [ctx EXCEPT !.sm = WithName(@, i.n, Append(ds0, [scope |-> i, st |-> EmptyStream])), !.lex = @ \cup {i}]
+            c1 == Exec(i.i, c0)
+            c1l == [c1 EXCEPT !.lex = ctx.lex]
+        IN  IF i.n \notin DOMAIN c1l.sm \/ Len(c1l.sm[i.n]) = 0 THEN Raise(c1l, Uncatch(-1))    \* unwrap() on a missing stream: panic
+            ELSE
+            LET ds == c1l.sm[i.n]
+                last == ds[Len(ds)]
+                c2 == [c1l EXCEPT !.sm = IF Len(ds) = 1 THEN WithoutName(@, i.n) ELSE WithName(@, i.n, SubSeq(ds, 1, Len(ds) - 1))]
+                c3 == CompactStream([c2 EXCEPT !.err = NoErr], last.st)
+            IN IF Failed(c1) THEN [c3 EXCEPT !.err = c1.err] ELSE c3
+    ELSE
     LET c1 == Exec(i.i, MeetNewStart(ctx, i.n))
         c2 == MeetNewEnd([c1 EXCEPT !.err = NoErr], i.n)
     IN IF Failed(c1) THEN [c2 EXCEPT !.err = c1.err] ELSE c2
@@ -459,48 +801,111 @@ ExecNew(i, ctx) ==
 \* iterator element i of a scalar iterable: the source's tetraplet with the index appended to the lens
 IterVals(val) ==
     [j \in 1..Len(val.v.q) |->
-        [v |-> val.v.q[j],
-         tp |-> [val.tp EXCEPT !.lens = @ \o ".$.[" \o ToString(j - 1) \o "]"]]]
+        [Val(val.v.q[j], [val.tp EXCEPT !.lens = @ \o ".$.[" \o ToString(j - 1) \o "]"]) EXCEPT !.prov = val.prov]]
+
+IterState(vals, i, fid, lex) == [vals |-> vals, idx |-> 1, body |-> i.i, last |-> i.last, stream |-> fid, back |-> FALSE, lex |-> lex]
+
+\* fold_scalar.rs fold(): one traversal of `vals` (a scalar array, a canon stream, or one generation of a stream)
+FoldOver(i, ctx, vals, fid) ==
+    IF i.x \in DOMAIN ctx.it THEN Raise(MeetFoldStart(ctx), Uncatch(U_MultipleIterable))
+    ELSE
+    LET c0 == MeetFoldStart(ctx)
+        c1 == [c0 EXCEPT !.it = WithName(@, i.x, IterState(vals, i, fid, ctx.lex))]
+        c2 == Exec(i.i, c1)
+    IN MeetFoldEnd([c2 EXCEPT !.it = WithoutName(@, i.x), !.lex = ctx.lex])
+
+\* execute_iterations: one fold() per generation; catchable errors are swallowed per generation
+RECURSIVE ExecGenerations(_, _, _, _, _, _)
+ExecGenerations(i, ctx, fid, gens, j, anyOk) ==
+    IF j > Len(gens) \/ Failed(ctx) THEN [ctx |-> ctx, anyOk |-> anyOk]
+    ELSE LET c1 == FsmIterationStart(ctx, fid, gens[j][1].pos) IN
+         IF Failed(c1) THEN [ctx |-> c1, anyOk |-> anyOk]
+         ELSE LET c2 == FoldOver(i, c1, gens[j], fid) IN
+              IF c2.err.cls = "uncatch" THEN [ctx |-> c2, anyOk |-> anyOk]
+              ELSE LET c3 == FsmGenerationEnd([c2 EXCEPT !.err = NoErr], fid) IN
+                   ExecGenerations(i, c3, fid, gens, j + 1, anyOk \/ c3.ok)
+
+\* the recursive stream cursor (recursive_stream.rs): batches of not yet seen generations until a batch adds nothing
+AddEmptyNewGen(st) == [st EXCEPT !.new = Append(@, <<>>)]
+RemoveLastNewIfEmpty(st) == IF Len(st.new) > 0 /\ Len(st.new[Len(st.new)]) = 0 THEN [st EXCEPT !.new = SubSeq(@, 1, Len(@) - 1)] ELSE st
+RECURSIVE FoldBatches(_, _, _, _, _, _)
+FoldBatches(i, ctx, fid, gens, cursor, anyOk) ==
+    IF Len(gens) = 0 \/ Failed(ctx) THEN [ctx |-> ctx, anyOk |-> anyOk]
+    ELSE LET r == ExecGenerations(i, ctx, fid, gens, 1, anyOk) IN
+         IF Failed(r.ctx) THEN r
+         ELSE LET g == GetStream(r.ctx, i.it.n) IN
+              IF ~g.found THEN [ctx |-> Raise(r.ctx, Uncatch(-1)), anyOk |-> r.anyOk]     \* get_mut(..).unwrap(): panic
+              ELSE LET nextGens == StreamSlices(g.st, cursor)
+                       st2 == RemoveLastNewIfEmpty(g.st)
+                       cursor2 == StreamCursor(st2)
+                       c2 == SetStream(r.ctx, i.it.n, AddEmptyNewGen(st2))
+                   IN FoldBatches(i, c2, fid, nextGens, cursor2, r.anyOk)
+
+ExecFoldStream(i, ctx) ==
+    LET g == GetStream(ctx, i.it.n) IN
+    IF ~g.found THEN Incomplete(ctx)
+    ELSE
+    LET c0 == FoldFsmStart(ctx) IN
+    IF Failed(c0) THEN c0
+    ELSE
+    LET fid == c0.fid
+        gens == StreamSlices(g.st, [p |-> 0, c |-> 0, n |-> 0])
+        cursor == StreamCursor(g.st)
+        c1 == IF Len(gens) > 0 THEN SetStream(c0, i.it.n, AddEmptyNewGen(g.st)) ELSE c0
+        r == FoldBatches(i, c1, fid, gens, cursor, FALSE)
+    IN IF Failed(r.ctx) THEN r.ctx
+       ELSE FsmFoldEnd([r.ctx EXCEPT !.ok = r.anyOk], fid)
 
 ExecFold(i, ctx) ==
+    IF i.it.o = "var" /\ Sigil(i.it.n) = "$" THEN ExecFoldStream(i, ctx)
+    ELSE
     LET a == Resolve(ctx, i.it) IN
     IF a.r = "join" THEN Incomplete(ctx)
     ELSE IF a.r = "err" THEN Raise(ctx, ErrOf(a.code))
+    ELSE IF a.val.cn THEN (IF Len(a.val.elems) = 0 THEN ctx ELSE FoldOver(i, ctx, a.val.elems, 0))
     ELSE IF ~IsArr(a.val.v) THEN Raise(ctx, Catch(E_FoldNonArray))
     ELSE IF Len(a.val.v.q) = 0 THEN ctx
-    ELSE IF i.x \in DOMAIN ctx.it THEN Raise(MeetFoldStart(ctx), Uncatch(U_MultipleIterable))
-    ELSE
-    LET c0 == MeetFoldStart(ctx)
-        c1 == [c0 EXCEPT !.it = WithName(@, i.x, [vals |-> IterVals(a.val), idx |-> 1, body |-> i.i, last |-> i.last])]
-        c2 == Exec(i.i, c1)
-        c3 == MeetFoldEnd([c2 EXCEPT !.it = WithoutName(@, i.x)])
-    IN c3
+    ELSE FoldOver(i, ctx, IterVals(a.val), 0)
 
-ExecNext(i, ctx) ==
-    IF i.x \notin DOMAIN ctx.it THEN Raise(ctx, Uncatch(U_FoldStateNotFound))
+ExecNext(i, ctx0) ==
+    IF i.x \notin DOMAIN ctx0.it THEN Raise(ctx0, Uncatch(U_FoldStateNotFound))
     ELSE
-    LET fs == ctx.it[i.x] IN
+    LET fs == ctx0.it[i.x]
+        isStream == fs.stream # 0
+        ctx == IF isStream THEN FsmIterationEnd(ctx0, fs.stream) ELSE ctx0 IN
     IF fs.idx >= Len(fs.vals) THEN
-        (IF fs.last.op # "none" THEN Exec(fs.last, [ctx EXCEPT !.ok = TRUE]) ELSE ctx)
+        LET c1 == IF isStream THEN FsmBackIterator(ctx, fs.stream) ELSE ctx IN
+        IF Failed(c1) THEN c1
+        ELSE IF fs.last.op # "none" THEN Exec(fs.last, [c1 EXCEPT !.ok = TRUE, !.lex = fs.lex])
+        ELSE IF isStream /\ ~fs.back THEN [c1 EXCEPT !.it[i.x].back = TRUE, !.ok = FALSE]
+        ELSE c1
     ELSE
-    LET c1 == MeetNextBefore([ctx EXCEPT !.it[i.x].idx = @ + 1])
+    LET c0 == [ctx EXCEPT !.it[i.x].idx = @ + 1]
+        c0b == IF isStream THEN FsmIterationStart(c0, fs.stream, fs.vals[fs.idx + 1].pos) ELSE c0 IN
+    IF Failed(c0b) THEN c0b
+    ELSE
+    LET c1 == MeetNextBefore([c0b EXCEPT !.lex = fs.lex])
         c2 == Exec(fs.body, c1)
-        c3 == MeetNextAfter(c2)
-    IN IF Failed(c3) THEN c3 ELSE [c3 EXCEPT !.it[i.x].idx = @ - 1]
+        c3 == MeetNextAfter([c2 EXCEPT !.lex = ctx0.lex])
+    IN IF Failed(c3) THEN c3
+       ELSE LET c4 == [c3 EXCEPT !.it[i.x].idx = @ - 1] IN
+            IF isStream THEN FsmBackIterator(c4, fs.stream) ELSE c4
 
 SupportedInstr(i) ==
     CASE i.op = "call" -> Supported(i.peer) /\ Supported(i.srv) /\ Supported(i.fn)
                           /\ (\A j \in 1..Len(i.args) : Supported(i.args[j]))
-                          /\ (i.out = "" \/ SubSeq(i.out, 1, 1) \notin {"$", "%", "#"})
-      [] i.op \in {"seq", "par", "xor", "null", "never", "next", "new"} -> TRUE
+                          /\ (i.out = "" \/ Sigil(i.out) \notin {"%", "#"})
+      [] i.op \in {"seq", "par", "xor", "null", "never", "next"} -> TRUE
+      [] i.op = "new" -> Sigil(i.n) \notin {"%", "#"}
       [] i.op = "fail" -> i.a.o = "lit"
       [] i.op \in {"match", "mismatch"} -> Supported(i.a) /\ Supported(i.b)
-      [] i.op = "ap" -> Supported(i.src) /\ SubSeq(i.dst, 1, 1) \notin {"$", "%", "#"}
-      [] i.op = "fold" -> Supported(i.it) /\ SubSeq(i.it.n, 1, 1) \notin {"$", "%", "#"}
+      [] i.op = "ap" -> Supported(i.src) /\ Sigil(i.dst) \notin {"%", "#"}
+      [] i.op = "fold" -> i.it.o = "var" /\ (Supported(i.it) \/ (Sigil(i.it.n) = "$" /\ Len(i.it.lens) = 0))
+      [] i.op = "canon" -> Supported(i.peer) /\ Sigil(i.s) = "$" /\ SubSeq(i.c, 1, 2) = "#$"
       [] OTHER -> FALSE
 
 Exec(i, ctx) ==
-    IF ~SupportedInstr(i) \/ (i.op = "new" /\ SubSeq(i.n, 1, 1) \in {"$", "%", "#"}) THEN
+    IF ~SupportedInstr(i) THEN
         [ctx EXCEPT !.unsup = TRUE, !.err = Uncatch(-2)]
     ELSE
     CASE i.op = "call"     -> ExecCall(i, ctx)
@@ -516,6 +921,7 @@ Exec(i, ctx) ==
       [] i.op = "new"      -> ExecNew(i, ctx)
       [] i.op = "fold"     -> ExecFold(i, ctx)
       [] i.op = "next"     -> ExecNext(i, ctx)
+      [] i.op = "canon"    -> ExecCanon(i, ctx)
       [] OTHER             -> [ctx EXCEPT !.unsup = TRUE, !.err = Uncatch(-2)]
 
 \* ---------------------------------------------------------------------------
@@ -527,7 +933,11 @@ SetOf(q) == {q[i] : i \in 1..Len(q)}
 \* results: set of [id, rc, v, body]
 Interp(script, me, init, prev, cur, results) ==
     LET c0 == InitCtx(me, init, prev.trace, cur.trace, prev.lcid, results)
-        c1 == Exec(script, c0)
+        cx == Exec(script, c0)
+        \* farewell: streams are compacted in both new-data cases (success and catchable error)
+        c1 == IF cx.unsup \/ cx.err.cls = "uncatch" THEN cx
+              ELSE LET cc == CompactAll([cx EXCEPT !.err = NoErr], AllDescriptors(cx)) IN
+                   IF Failed(cc) THEN cc ELSE [cc EXCEPT !.err = cx.err]
         sigs == SortedNames(SetOf(prev.sigs) \cup SetOf(cur.sigs) \cup {me})
         newData == [trace |-> c1.out, lcid |-> c1.lcid, sigs |-> sigs]
     IN  IF c1.unsup THEN [unsup |-> TRUE, kf1 |-> FALSE, code |-> -2, data |-> prev, next |-> <<>>, reqs |-> <<>>]
